@@ -40,6 +40,8 @@ func (c c13cfg) rootType() node.RootType {
 type c13Artefact struct {
 	Config   c13cfg            `json:"config"`
 	Batch    []op              `json:"batch"`
+	Mode     string            `json:"mode,omitempty"` // "" | "siblings"
+	Batch2   []op              `json:"batch2,omitempty"`
 	Mutation string            `json:"mutation,omitempty"`
 	Log      writelog.WriteLog `json:"log,omitempty"`
 }
@@ -387,6 +389,135 @@ func c13Case(e *c13env, batch []op, r *ev.Run) (what, mut string, mlog writelog.
 	return "", "", nil
 }
 
+// c13Siblings: several roots of one version.  On top of the finalized base root two batches are
+// committed as version 2 (siblings A then B, both pending), a third root C is derived from A inside
+// version 2 (a chain of same-version roots), then one of A / B is finalized.  Before and after the
+// finalization every parent -> child pair is asked for: whatever the database serves must turn the
+// parent's contents into the child's; the first root of the version must be served.
+func c13Siblings(cfg c13cfg, b1, b2 []op, r *ev.Run) (what string) {
+	defer func() {
+		if p := recover(); p != nil {
+			what = fmt.Sprintf("panic: %v", p)
+		}
+	}()
+	for _, fin := range []string{"A", "B"} {
+		src, root1, err := c13Prepare(cfg)
+		if err != nil {
+			r.HarnessError("prepare src: %v", err)
+			return ""
+		}
+		base := cfg.Base
+		if cfg.Type == "io" {
+			base = kv.Contents{}
+		}
+		type stored struct {
+			name   string
+			parent node.Root
+			pc     kv.Contents
+			root   node.Root
+			c      kv.Contents
+		}
+		var all []stored
+		commit := func(name string, parent node.Root, pc kv.Contents, batch []op) (*stored, string) {
+			var t mkvs.Tree
+			if cfg.Type == "io" && parent.Hash.IsEmpty() {
+				t = mkvs.New(nil, src, node.RootTypeIO)
+			} else {
+				t = mkvs.NewWithRoot(nil, src, parent)
+			}
+			defer t.Close()
+			c := pc.Clone()
+			for _, o := range batch {
+				if err := applyOp(t, c, o); err != nil {
+					return nil, fmt.Sprintf("%s: batch op %s failed: %v", name, o, err)
+				}
+			}
+			_, h, err := t.Commit(kv.Ctx, kv.Namespace, 2)
+			if err != nil {
+				return nil, fmt.Sprintf("%s: commit failed: %v", name, err)
+			}
+			if hr := kv.CanonicalRoot(c); hr != h {
+				return nil, fmt.Sprintf("%s: committed root %s differs from contents-only hash %s", name, h, hr)
+			}
+			return &stored{name: name, parent: parent, pc: pc, root: kv.RootFor(2, cfg.rootType(), h), c: c}, ""
+		}
+		a, w := commit("A", root1, base, b1)
+		if w != "" {
+			src.Close()
+			return w
+		}
+		b, w := commit("B", root1, base, b2)
+		if w != "" {
+			src.Close()
+			return w
+		}
+		all = append(all, *a)
+		if !b.root.Hash.Equal(&a.root.Hash) {
+			all = append(all, *b)
+		}
+		if !a.root.Hash.Equal(&root1.Hash) || cfg.Type == "io" {
+			if c, w := commit("C", a.root, a.c, b2); w == "" {
+				dup := false
+				for _, s := range all {
+					dup = dup || s.root.Hash.Equal(&c.root.Hash)
+				}
+				if !dup && !c.root.Hash.Equal(&a.root.Hash) {
+					all = append(all, *c)
+				}
+			} else {
+				r.Add("sibling_chain_commits_refused", 1)
+			}
+		}
+		ask := func(stage string) string {
+			for i, s := range all {
+				if s.root.Hash.Equal(&s.parent.Hash) {
+					continue
+				}
+				if !src.HasRoot(s.root) {
+					continue // discarded at finalization
+				}
+				wl, err := readLog(src, s.parent, s.root)
+				r.Add("transitions", 1)
+				if err != nil {
+					if i == 0 && stage == "pending" && !(cfg.Backend == "pathbadger" && strings.Contains(err.Error(), "failed to fetch node")) {
+						return fmt.Sprintf("%s: GetWriteLog(parent -> %s), the first root committed in the version, failed: %v", stage, s.name, err)
+					}
+					r.Add("sibling_pairs_not_served", 1)
+					continue
+				}
+				r.Add("sibling_pairs_served", 1)
+				if got := applyLogRef(s.pc, wl); !got.Equal(s.c) {
+					return fmt.Sprintf("%s: the write log %s served for (parent %s -> %s %s) applied to the parent gives %s", stage, logString(wl), s.pc, s.name, s.c, got)
+				}
+			}
+			return ""
+		}
+		if w := ask("pending"); w != "" {
+			src.Close()
+			return w
+		}
+		pick := a.root
+		if fin == "B" {
+			pick = b.root
+		}
+		if pick.Hash.Equal(&root1.Hash) && cfg.Type != "io" {
+			src.Close()
+			continue
+		}
+		if err := src.Finalize([]node.Root{pick}); err != nil {
+			src.Close()
+			r.Add("sibling_finalize_refused", 1)
+			continue
+		}
+		w = ask("after finalizing " + fin)
+		src.Close()
+		if w != "" {
+			return w
+		}
+	}
+	return ""
+}
+
 func rootSet(ndb dbapi.NodeDB) string {
 	roots, _ := ndb.GetRootsForVersion(2)
 	var ss []string
@@ -447,6 +578,16 @@ func runC13(r *ev.Run) {
 		b, _ := json.Marshal(v.Artefact)
 		var a c13Artefact
 		_ = json.Unmarshal(b, &a)
+		if a.Mode == "siblings" {
+			rr := ev.New("C13", "model_checking")
+			rr.NoWrite = true
+			if what := c13Siblings(a.Config, a.Batch, a.Batch2, rr); what != "" {
+				fmt.Printf("VIOLATION property=C13 replay=%s\n  what: %s\n", r.Replay, what)
+				os.Exit(1)
+			}
+			fmt.Println("replay: property held")
+			os.Exit(0)
+		}
 		e := &c13env{cfg: a.Config}
 		var err1, err2 error
 		e.src, e.root, err1 = c13Prepare(a.Config)
@@ -537,10 +678,47 @@ func runC13(r *ev.Run) {
 			}
 		}
 	})
+	// Several roots in one version.
+	var sb [][]op
+	for _, b := range c13Batches(2) {
+		if len(b) <= 1 || (r.Thorough() && len(b) <= 2) {
+			sb = append(sb, b)
+		}
+	}
+	type sjob struct {
+		cfg    c13cfg
+		i1, i2 int
+	}
+	var sjobs []sjob
+	for _, c := range cfgs {
+		for i1 := range sb {
+			for i2 := range sb {
+				if r.Thorough() && len(sb[i1])+len(sb[i2]) > 3 {
+					continue
+				}
+				sjobs = append(sjobs, sjob{c, i1, i2})
+			}
+		}
+	}
+	ev.ParallelRange(len(sjobs), r.Seed, func(ji int) {
+		j := sjobs[ji]
+		if r.Expired() {
+			r.Cap("deadline")
+			return
+		}
+		what := c13Siblings(j.cfg, sb[j.i1], sb[j.i2], r)
+		r.Add("states", 1)
+		r.Add("sibling_cases", 1)
+		if what != "" {
+			r.Violate(ev.Violation{Engine: "kvmc", Key: fmt.Sprintf("c13 siblings %s %s base=%s A=%v B=%v", j.cfg.Backend, j.cfg.Type, j.cfg.Base, sb[j.i1], sb[j.i2]),
+				What:     fmt.Sprintf("%s %s roots, base %s, version 2 roots A=%v B=%v (C = A then B's batch): %s", j.cfg.Backend, j.cfg.Type, j.cfg.Base, sb[j.i1], sb[j.i2], what),
+				Artefact: c13Artefact{Config: j.cfg, Mode: "siblings", Batch: sb[j.i1], Batch2: sb[j.i2]}})
+		}
+	})
 	r.Set("batches", len(batches))
 	r.Set("configs", len(cfgs))
 	r.Alias("traces_validated_against_impl", "transitions")
-	r.Set("rule", "for every (backend, root type, finalized base contents) and every batch of <= depth operations over 4 keys x {a,b,'',remove} (includes remove-then-reinsert, insert-then-remove, overwrite with the same value): GetWriteLog(parent, child) applied to the parent gives exactly the child contents/root; RootCache.Apply of every entry-level mutant (drop, drop-all, duplicate, key/value alteration incl. insert<->delete, swap, append) on a second database: accepted only if its net effect equals the announced transition, else the expected root (and any other new root) is absent afterwards; the honest log is accepted and reads back")
+	r.Set("rule", "for every (backend, root type, finalized base contents) and every batch of <= depth operations over 4 keys x {a,b,'',remove} (includes remove-then-reinsert, insert-then-remove, overwrite with the same value): GetWriteLog(parent, child) applied to the parent gives exactly the child contents/root; RootCache.Apply of every entry-level mutant (drop, drop-all, duplicate, key/value alteration incl. insert<->delete, swap, append) on a second database: accepted only if its net effect equals the announced transition, else the expected root (and any other new root) is absent afterwards; the honest log is accepted and reads back; several roots in one version: two sibling roots A, B on the finalized base and a root C derived from A inside the version, for every pair of batches of <= 1 (thorough: together <= 3) operations; before and after finalizing A or B every parent -> child pair that is served must turn the parent's contents into the child's, and the first root of the version must be served")
 	r.Assume("keys limited to 4, logs <= depth entries", "destination database is recreated after an accepted neutral mutant")
 	r.Finish()
 }
